@@ -200,6 +200,155 @@ def native_replay(cfg, kind, model, digits, npoints, has_base=False):
         if got != compress_py(exp): return True, dict(native_call=fn, args=[a.hex() for a in args], native_result=got.hex(), specification=compress_py(exp).hex())
     return False, "none of %d concrete candidate inputs reproduces the digit-level counterexample on the natively built code" % len(cands)
 
+def lemma_onehot(lo, hi):
+    """finite identity behind fold_indicators: for d in [lo, hi]:  d == sum_{v != 0} v * [d == v]   (solver, one query per range)"""
+    vals = [v for v in range(lo, hi + 1) if v != 0]
+    lines = ["(set-logic ALL)", "(declare-const d Int)", "(assert (and (>= d %d) (<= d %d)))" % (lo, hi)]
+    for v in vals:
+        nm = "b_m%d" % -v if v < 0 else "b_%d" % v
+        lines += ["(declare-const %s Int)" % nm, "(assert (= %s (ite (= d %s) 1 0)))" % (nm, v if v >= 0 else "(- %d)" % -v)]
+    tot = " ".join("(* %s %s)" % (v if v >= 0 else "(- %d)" % -v, ("b_m%d" % -v if v < 0 else "b_%d" % v)) for v in vals)
+    lines += ["(assert (not (= d (+ %s))))" % tot, "(check-sat)"]
+    t0 = time.time()
+    v, _ = smt.run_solver("\n".join(lines), "z3", 60)
+    return v, time.time() - t0
+
+def pippenger_harness(rep, cfg, modpath, name, hook, n, nsym, bounds, backend=None, flavour_note=""):
+    """Pippenger's bucket method: digit-indexed bucket array (one-hot indicators), digit-sign matches merged; n points of which the
+    first nsym have fully symbolic radix-2^w digits and the others the concrete scalar 0 (they still take part in every loop)"""
+    t0 = time.time()
+    label = "%s/%s" % (cfg + ("+" + backend if backend else ""), name)
+    rec = dict(harness=label, config=cfg, function="scalar_mul::pippenger::Pippenger::optional_multiscalar_mul", goals=[], bounds=bounds)
+    try:
+        it = GSym(module(modpath))
+        if backend: force_backend(it, backend)
+        out = it.new_region("out", 4 * it.fs); sc = it.new_region("scalars", 32 * n); pts = it.new_region("points", 4 * it.fs * n)
+        for i in range(n):
+            if i < nsym:
+                so = gsym.ScalarObj("s%d" % i)
+                for k in range(32): it.regions[sc.r].b[32 * i + k] = (so, k, 32)
+            else:
+                for k in range(32): it.store(Ptr(sc.r, 32 * i + k), Poly.const(0), 1)
+            it.put(Ptr(pts.r, 4 * it.fs * i), G.base("P%d" % i), 4 * it.fs)
+        r = it.P(it.call(hook, [sc, Poly.const(n), pts, Poly.const(n), Poly.const(0), out]))
+        status = "ok"
+        rec["goals"].append(dict(goal="returns Some when every point is Some", verdict="unsat" if (r.is_const() and r.cval() == 1) else "sat", solver_s=0.0, cases=1, solver_calls=0, kind="structural"))
+        if not (r.is_const() and r.cval() == 1): status = "violation"; rec["why"] = "returned None although all points are Some"
+        res = it.get(out)
+        w = [k for (t, k) in it.digits if t == "s0"][0]
+        exp = G()
+        for i in range(nsym): exp = exp + G.base("P%d" % i).scale(spec_scalar(it, "s%d" % i, w))
+        pr = smt.Problem(it.ctx)
+        ranges = set()
+        for b in sorted(set(res.c) | set(exp.c)):
+            f, used = it.fold_indicators(it.ctx.resolve(res.c.get(b, ZERO)))
+            for (_, lo, hi) in used: ranges.add((lo, hi))
+            d = f - exp.c.get(b, ZERO)
+            v, model, dt, info = pr.check(Cond("cmp", "ne", d, ZERO), timeout_s=120, split=False)
+            rec["goals"].append(dict(goal="coefficient of %s: result == expected (%d digit groups folded by the one-hot identity)" % (b, len(used)), verdict=v, solver_s=round(dt, 3), kind="QF_LIA", **info))
+            if v == "sat": status = "violation"; rec["why"] = "coefficient of %s differs: %s" % (b, str(d)[:300]); rec["model"] = {k: model[k] for k in sorted(model)[:60]} if model else None
+            elif v != "unsat" and status == "ok": status = "inconclusive"; rec["why"] = "solver verdict " + v
+        for lo, hi in sorted(ranges):
+            v, dt = lemma_onehot(lo, hi)
+            rec["goals"].append(dict(goal="one-hot identity d == sum v*[d==v] for d in [%d,%d]" % (lo, hi), verdict=v, solver_s=round(dt, 3), cases=1, solver_calls=1, kind="QF_LIA lemma"))
+            if v != "unsat" and status == "ok": status = "inconclusive"; rec["why"] = "one-hot lemma not established: " + v
+        # panic edges met on the way (bounds checks of the digit-derived bucket index, overflow checks in checked builds)
+        for desc, cond, path in it.obligations:
+            v, model, dt, info = pr.check(cond, timeout_s=60, split=False)
+            rec["goals"].append(dict(goal="no-panic: " + desc[-120:], verdict=v, solver_s=round(dt, 3), kind="QF_LIA", **info))
+            if v == "sat":
+                status = "violation"
+                dg = {}
+                for (t, k), dd in it.digits.items():
+                    dg[t] = sum(model.get(list(x.vars())[0], 0) * wt for x, wt in zip(dd["vars"], dd["weights"]) if x.vars())
+                rec["why"] = "reachable panic: %s for scalar(s) %s" % (desc[-120:], {t: hex(x % (1 << 256)) for t, x in dg.items()})
+                # native replay on the overflow-checked (debug) build of the real code
+                try:
+                    from vp import native
+                    from llsym import fconst
+                    pt = compress_py(fconst.ed_mul(3, (fconst.BX, fconst.BY)))
+                    # candidates: the integer the model's digits denote, then scalars whose recoding is known to hit extreme digits
+                    cands = [dg.get("s0", 0) % (1 << 256), 0x80, int.from_bytes(b"\x80" * 31 + b"\x00", "little"), int.from_bytes(b"\x7f" * 32, "little"), (1 << 255) - 1, (1 << 252) + 0x8080]
+                    rec["reproduced"] = False
+                    for cv in cands:
+                        sb = int(cv).to_bytes(32, "little") + b"".join(int(dg.get("s%d" % i, 0) % (1 << 256)).to_bytes(32, "little") for i in range(1, n))
+                        got = native.run(cfg, [({"vp_g_pippenger": "g_opt_pippenger"}.get(hook, "g_opt_pippenger_dispatch"), [sb, pt * n, (0).to_bytes(8, "little")])], profile="debug", timeout=600)[0]
+                        if isinstance(got, tuple):
+                            rec["replay"] = dict(native_profile="debug (overflow-checks on)", scalar_0=hex(cv), points="%d x 3B" % n, native_result=str(got)[:300]); rec["reproduced"] = True; break
+                    if not rec["reproduced"]: status = "inconclusive"; rec["why"] += " | NOT reproduced natively with %d candidate scalars" % len(cands)
+                except Exception as e: rec["replay"] = "native runner failed: " + str(e)[:200]
+                break
+            elif v != "unsat" and status == "ok": status = "inconclusive"; rec["why"] = "panic obligation undecided"
+        rec["ir_steps"] = it.steps; rec["intercepted"] = it.kcalls; rec["arm_merges"] = it.merges; rec["recodings"] = sorted("%s:%s" % k for k in it.digits)
+        if backend in ("avx2", "avx512") and not [c for c in it.calls if "vector" in c and "pippenger" in c]:
+            status = "inconclusive"; rec["why"] = "forced backend %s but the vector Pippenger was not executed" % backend
+        rec["status"] = status
+    except (TableLemmaFailed, DigitOutOfRange) as e:
+        rec["status"] = "violation"; rec["why"] = "%s: %s" % (type(e).__name__, e)
+    except ir.Unsupported as e:
+        rec["status"] = "inconclusive"; rec["why"] = "unsupported IR: " + str(e)[:400]
+    except PanicReached as e:
+        rec["status"] = "violation"; rec["why"] = "panic reached: " + str(e)
+    rec["wall_s"] = round(time.time() - t0, 3)
+    rep.add(**rec); rep.functions.add(rec["function"]); rep.configs.add(cfg)
+
+def none_harness(rep, cfg, modpath, name, hook, n, backend=None):
+    """optional_multiscalar_mul: any None point makes the result None (every position of the None, all scalars symbolic)"""
+    t0 = time.time()
+    label = "%s/%s" % (cfg + ("+" + backend if backend else ""), name)
+    rec = dict(harness=label, config=cfg, function=hook, goals=[], bounds="n = %d points, each position of a single None point, plus all-None; all scalar digits symbolic" % n)
+    status = "ok"
+    try:
+        mod = module(modpath)
+        for mask in [1 << k for k in range(n)] + [(1 << n) - 1]:
+            it = GSym(mod)
+            if backend: force_backend(it, backend)
+            out = it.new_region("out", 4 * it.fs); sc = it.new_region("scalars", 32 * n); pts = it.new_region("points", 4 * it.fs * n)
+            for i in range(n):
+                so = gsym.ScalarObj("s%d" % i)
+                for k in range(32): it.regions[sc.r].b[32 * i + k] = (so, k, 32)
+                it.put(Ptr(pts.r, 4 * it.fs * i), G.base("P%d" % i), 4 * it.fs)
+            r = it.P(it.call(hook, [sc, Poly.const(n), pts, Poly.const(n), Poly.const(mask), out]))
+            ok = r.is_const() and r.cval() == 0
+            rec["goals"].append(dict(goal="None mask %s -> result None" % bin(mask), verdict="unsat" if ok else "sat", solver_s=0.0, cases=1, solver_calls=0, kind="single-path execution (the Option handling does not depend on the symbolic digits)"))
+            if not ok and status == "ok":
+                status = "violation"; rec["why"] = "points with None mask %s: returned %r instead of None" % (bin(mask), r)
+                # native replay: concrete scalars 1..n and points 3B, 5B, 7B with that mask on the natively built code
+                from vp import native
+                from llsym import fconst
+                pts_ = [fconst.ed_mul(m_, (fconst.BX, fconst.BY)) for m_ in (3, 5, 7, 11)[:n]]
+                call = ({"vp_g_pippenger": "g_opt_pippenger", "vp_g_pippenger_dispatch": "g_opt_pippenger_dispatch"}.get(hook, "g_opt_multiscalar"),
+                        [b"".join(int(i + 1).to_bytes(32, "little") for i in range(n)), b"".join(compress_py(q) for q in pts_), int(mask).to_bytes(8, "little")])
+                try:
+                    got = native.run(cfg, [call])[0]
+                    rec["replay"] = dict(native_call=call[0], args=[x.hex() for x in call[1]], native_result=(got.hex() if isinstance(got, bytes) else str(got)))
+                    rec["reproduced"] = isinstance(got, bytes) and got[:1] == b"\x01"
+                    if isinstance(got, bytes) and got[:1] == b"\x00": status = "inconclusive"; rec["why"] += " | NOT reproduced natively (native result None)"
+                except Exception as e: rec["replay"] = "native runner failed: " + str(e)[:200]
+        rec["status"] = status
+    except ir.Unsupported as e:
+        rec["status"] = "inconclusive"; rec["why"] = "unsupported IR: " + str(e)[:400]
+    except PanicReached as e:
+        rec["status"] = "violation"; rec["why"] = "panic reached: " + str(e)
+    rec["wall_s"] = round(time.time() - t0, 3)
+    rep.add(**rec); rep.functions.add(hook); rep.configs.add(cfg)
+
+def pippenger_harnesses(rep, tier):
+    T = []
+    s64 = build.ir("serial64", "O0"); simd = build.ir("simd", "O0")
+    T.append(lambda: pippenger_harness(rep, "serial64", s64, "serial Pippenger n=2 (w=6)", "vp_g_pippenger", 2, 2, "2 points, all radix-64 digit vectors (all scalars)"))
+    T.append(lambda: pippenger_harness(rep, "simd", simd, "vector Pippenger n=2 (w=6)", "vp_g_pippenger_dispatch", 2, 2, "2 points, all radix-64 digit vectors (all scalars)", backend="avx2"))
+    T.append(lambda: none_harness(rep, "serial64", s64, "serial Pippenger: None point => None", "vp_g_pippenger", 3))
+    T.append(lambda: none_harness(rep, "simd", simd, "vector Pippenger: None point => None", "vp_g_pippenger_dispatch", 3, backend="avx2"))
+    T.append(lambda: none_harness(rep, "serial64", s64, "EdwardsPoint::optional_multiscalar_mul (vartime Straus): None point => None", "vp_g_optional_multiscalar_mul", 3))
+    T.append(lambda: none_harness(rep, "simd", simd, "EdwardsPoint::optional_multiscalar_mul (vector vartime Straus): None point => None", "vp_g_optional_multiscalar_mul", 3, backend="avx2"))
+    if tier != "quick":
+        T.append(lambda: pippenger_harness(rep, "serial64", s64, "serial Pippenger n=3 (w=6)", "vp_g_pippenger", 3, 3, "3 points, all digit vectors"))
+        for n, w in ((500, 7), (800, 8)):
+            T.append(lambda n=n, w=w: pippenger_harness(rep, "serial64", s64, "serial Pippenger n=%d (w=%d), 2 symbolic scalars + %d zero scalars" % (n, w, n - 2), "vp_g_pippenger", n, 2,
+                     "%d points; scalars 0,1 arbitrary (all radix-2^%d digit vectors), the others 0" % (n, w)))
+    return T
+
 def spec_naf(it, tag, w):
     d = it.digits[(tag, "naf%d" % w)]
     return sum((v.scale(wt) for v, wt in zip(d["vars"], d["weights"])), ZERO)
@@ -340,6 +489,7 @@ def run(tier, seed):
     tasks = []
     for cfg in cfgs: tasks += harnesses(rep, cfg, build.ir(cfg, "O0"), tier)
     tasks += vartime_harnesses(rep, "serial64", build.ir("serial64", "O0"), tier)
+    tasks += pippenger_harnesses(rep, tier)
     tasks += vector_harnesses(rep, "simd", build.ir("simd", "O0"), tier, "avx2")
     tasks += vartime_harnesses(rep, "simd", build.ir("simd", "O0"), tier, backend="avx2")
     if tier != "quick":
